@@ -582,6 +582,20 @@ def guess_table(n, cols, which=0):
     return np.array([[0.11 + 0.13 * r + 0.07 * c + 0.011 * r * c + 0.5 * which for c in range(cols)] for r in range(n)])
 
 
+def typed_value(v, kind):
+    """the same number in the argument types users pass"""
+    import casadi as ca
+    if kind == "float": return float(v)
+    if kind == "int": return int(v)
+    if kind == "np0d": return np.array(float(v))
+    if kind == "npscalar": return np.float64(v)
+    if kind == "np1": return np.array([float(v)])
+    if kind == "np11": return np.array([[float(v)]])
+    if kind == "dm": return ca.DM(float(v))
+    if kind == "list": return [float(v)]
+    raise KeyError(kind)
+
+
 def target_sym(s, target):
     return {"T": s["T"], "t0": s["t0"]}.get(target, s.get(target))
 
@@ -595,6 +609,8 @@ def apply_init(st, s, d, ent):
     N = d["N"]
     if form == "const":
         v = val
+    elif form.startswith("const_"):
+        v = typed_value(val, form[len("const_"):])      # the same constant as a python int, numpy scalar, 0-d array, DM
     elif form == "vec":
         v = ca.DM(np.array(val, dtype=float).reshape(sym.shape, order="F"))
     elif form == "arrN":
@@ -711,7 +727,7 @@ def declare(d, ocp=None, stage=None, solver=True, method=True, with_cons=True, w
     if const_params:
         pass
     elif d["pg"] == "scalar":
-        st.set_value(s["pg"], pv.get("pg", PARAM_VALUES["pg"]))
+        st.set_value(s["pg"], typed_value(pv.get("pg", PARAM_VALUES["pg"]), pv.get("pg_type", "float")))
     elif d["pg"] == "mat":
         st.set_value(s["pg"], np.array(pv.get("pgm", pgm_value())))
     if d["pc"]:
